@@ -198,7 +198,7 @@ def random_case(rng):
         if rng.random() < 0.3 and len(groups) > 1:
             groups.pop()  # not covering the world
     nl = rng.choice([1, 2, 3, 5, 8, 13, 40])
-    fam = rng.choice(['small', 'ties', 'zeros', 'huge', 'float', 'geom'])
+    fam = rng.choice(['small', 'ties', 'zeros', 'huge', 'float', 'geom', 'cubes', 'cubes'])
 
     def cost(i):
         if fam == 'small':
@@ -211,6 +211,10 @@ def random_case(rng):
             return rng.randint(1, 10 ** 9)
         if fam == 'float':
             return rng.random() * 100
+        if fam == 'cubes':
+            # the preconditioner's own heuristics: n**3 (COMPUTE) or n**2 (MEMORY) of layer widths from 3 to 8192
+            n_ = rng.choice([8192, 4096, 4096, 1024, 64, 16, 16, 10, 10, 3])
+            return n_ ** rng.choice([3, 3, 2])
         return 2 ** (i % 20)
     names = [rng.choice(['A', 'G', 'B', 'a0', 'z']) for _ in range(3)]
     work = {}
